@@ -74,8 +74,7 @@ def check_init(run, pkg, attrs, ex):
         if not explicit:
             cw = calls(it, "PyMatterSim.utils.wavevector.choosewavevector")
             if len(cw) != 1:
-                run.ob("R-ALG", fq, f"{arm}:generator", False, "default wave vectors come from choosewavevector", f"{len(cw)} calls",
-                       witness="default wave-vector set not generated", loc=loc)
+                run.ob("R-ALG", fq, f"{arm}:generator", None, "default wave vectors come from choosewavevector", f"{len(cw)} calls", loc=loc)
                 continue
             call = cw[0].data["call"]
             src = cw[0].data["result"]
@@ -91,17 +90,17 @@ def check_init(run, pkg, attrs, ex):
                 return None
             ok_nd = eqv(a[0], nd) if a else None
             run.ob("R-ALG", fq, f"{arm}:ndim", ok_nd, "generator is told the dimension of the positions", show(a[0])[:60] if a else "?",
-                   witness=None if ok_nd else "wrong dimension", loc=loc)
+                   witness=None if ok_nd else "wrong dimension", loc=loc, sound=True)
             if len(a) >= 2:
                 tr = S.Translator(atom_of, True)
                 g = tr.tr(a[1])
                 ref = S.PyInt(qr * 2 / (2 * sp.pi / Lm))
                 ok, how = S.decide_equal(g, ref)
                 run.ob("R-ALG", fq, f"{arm}:numofq", ok if not (ok is False and tr.atoms) else None, "number of integer steps = int(2 qrange / min(2 pi / L))",
-                       sp.sstr(g)[:100], witness=None if ok is not False else how, loc=loc)
+                       sp.sstr(g)[:100], witness=None if ok is not False else how, loc=loc, sound=True)
             okp = eqv(a[2], ("sym", "onlypositive")) if len(a) >= 3 else None
             run.ob("R-ALG", fq, f"{arm}:onlypositive", okp, "the onlypositive option is forwarded", show(a[2])[:40] if len(a) > 2 else "?",
-                   witness=None if okp else "option ignored", loc=loc)
+                   witness=None if okp else "option ignored", loc=loc, sound=True)
         want = canon(("bin", "*", ("call", ".astype", (src, ("mod", "numpy.float64")), ()), ("sub", two_pi_L, ("tuple", (("mod", "numpy.newaxis"), ("slice", NONE, NONE, NONE))))))
         ok = qv == want
         if not ok and qv is not None:
@@ -123,15 +122,15 @@ def check_init(run, pkg, attrs, ex):
             except Exception:
                 ok = None
         run.ob("R-ALG", fq, f"{arm}:qvector", ok, "q = integer vector * 2 pi / L, axis by axis (frame 0 box)", show(qv)[:120] if qv else "?",
-               witness=None if ok is not False else "wave vectors are not commensurate with the box axis by axis", loc=loc)
+               witness=None if ok is not False else "wave vectors are not commensurate with the box axis by axis", loc=loc, sound=True)
         qval = at.get("qvalue")
         from .grlib import is_rowwise_norm
         okq = True if (qv is not None and qval is not None and is_rowwise_norm(qval) == qv) else (eqv(qval, ("call", "numpy.linalg.norm", (qv,), (("axis", C(1)),))) if qv is not None else None)
         run.ob("R-ALG", fq, f"{arm}:qvalue", okq, "|q| is the row-wise norm of the scaled wave vectors", show(qval)[:80] if qval else "?",
-               witness=None if okq else "|q| computed from unscaled vectors / wrong axis", loc=loc)
-    ok_tc = attrs.get("typecount") == TYPECOUNT and attrs.get("nparticle") == N_ and attrs.get("nsnapshots") == T_
+               witness=None if okq else "|q| computed from unscaled vectors / wrong axis", loc=loc, sound=True)
+    ok_tc = tri(eqv(attrs.get("typecount"), TYPECOUNT), eqv(attrs.get("nparticle"), N_), eqv(attrs.get("nsnapshots"), T_))
     run.ob("R-ALG", fq, "counts", ok_tc, "N, N_a (type counts of frame 0) and T come from the trajectory", "",
-           witness=None if ok_tc else "normalisation counts taken from something else", loc=loc)
+           witness=None if ok_tc else "normalisation counts taken from something else", loc=loc, sound=True)
 
 
 def check_method(run, pkg, K, m, attrs, ex):
@@ -150,9 +149,9 @@ def check_method(run, pkg, K, m, attrs, ex):
     cols = kw(df, "columns")
     colnames = [c[1] for c in cols[1]] if cols is not None and cols[0] == "list" else []
     want_cols = ["q", "Sq"] + [f"Sq{a}{a}" for a in range(1, K + 1) if K > 1] + [f"Sq{a}{b}" for a in range(1, K + 1) for b in range(a + 1, K + 1)]
-    okc = set(colnames) == set(want_cols)
+    okc = True if set(colnames) == set(want_cols) else (False if (colnames and set(want_cols) - set(colnames)) else None)
     run.ob("R-ROUTE", fq, "declared-columns", okc, f"{K}-species result declares q, Sq and all partial columns", f"{colnames}",
-           witness=None if okc else f"missing {sorted(set(want_cols) - set(colnames))} extra {sorted(set(colnames) - set(want_cols))}", loc=loc)
+           witness=None if okc else f"missing {sorted(set(want_cols) - set(colnames))} extra {sorted(set(colnames) - set(want_cols))}", loc=loc, sound=True)
     acc_ev, norm_ev, q_ev = {}, {}, []
     for e in stores(it):
         tg = e.data["target"]
@@ -166,17 +165,17 @@ def check_method(run, pkg, K, m, attrs, ex):
                 norm_ev.setdefault(name, []).append(e)
             else:
                 run.ob("R-ALG", fq, f"{name}:statement", None, "column statement recognised", key_of(e)[:80], loc=loc_of(it, e))
-    okq = len(q_ev) == 1 and ex(q_ev[0].data["value"]) == ex(attrs["qvalue"])
+    okq = eqv(ex(q_ev[0].data["value"]), ex(attrs["qvalue"])) if len(q_ev) == 1 else None
     run.ob("R-ALG", fq, "q-column", okq, "the q column is |q| of the scaled wave vectors", show(q_ev[0].data["value"])[:60] if q_ev else "missing",
-           witness=None if okq else "q column does not hold |q|", loc=loc)
+           witness=None if okq else "q column does not hold |q|", loc=loc, sound=True)
     # ---- loops
     loop_ids = sorted({l for evs in acc_ev.values() for e in evs for l in e.loops})
     if len(loop_ids) != 1:
         raise AnalysisError(f"{fq}: column accumulation expected directly inside the frame loop")
     Lf = it.loops[loop_ids[0]]
     snap = Lf.target
-    okf = ex(Lf.iter) == ("attr", SN, "snapshots")
-    run.ob("R-LOOPDOM", fq, "frames", okf, "every frame contributes", show(ex(Lf.iter))[:60], witness=None if okf else "frames skipped", loc=loc)
+    okf = eqv(ex(Lf.iter), ("attr", SN, "snapshots"))
+    run.ob("R-LOOPDOM", fq, "frames", okf, "every frame contributes", show(ex(Lf.iter))[:60], witness=None if okf else "frames skipped", loc=loc, sound=True)
     # ---- density-mode accumulators
     if K == 1:
         # scalar accumulator: exp_thetas += exp(-1j thetas)
@@ -184,18 +183,26 @@ def check_method(run, pkg, K, m, attrs, ex):
         accs = {"all": [(e, ()) for e in augs]}
         medium_of = {id(e): e.data["value"] for e in augs}
         inits = [e for e in it.events if e.kind == "assign" and e.data["value"] == C(0) and e.loops == (Lf.id,)]
-        acc_reset = bool(inits)
+        acc_reset = True if inits else None
+        if not inits and augs:
+            nm_ = augs[0].data.get("name")
+            outer = [e for e in it.events if e.kind == "assign" and e.data["name"] == nm_ and not e.loops]
+            inner = [e for e in it.events if e.kind == "assign" and e.data["name"] == nm_ and e.loops]
+            if outer and not inner:
+                acc_reset = False      # the accumulator is zeroed once before the frame loop and never inside it
         acc_term = {"all": augs[0].data["new"] if augs else None}
     else:
         dict_assign = [e for e in it.events if e.kind == "assign" and e.data["value"][0] == "dict"]
         if len(dict_assign) != 1:
             raise AnalysisError(f"{fq}: expected one accumulator dict")
         D = dict_assign[0].data["value"]
-        acc_reset = dict_assign[0].loops == (Lf.id,) and all(v == C(0) for _, v in D[1])
+        acc_reset = True if (dict_assign[0].loops == (Lf.id,) and all(v == C(0) for _, v in D[1])) else None
+        if acc_reset is None and not dict_assign[0].loops and not [e for e in stores(it) if e.data["target"][1] == D and e.data["op"] is None and Lf.id in e.loops]:
+            acc_reset = False          # built once before the frame loop, no entry is ever re-assigned inside it
         keys = [k[1] for k, _ in D[1]]
         want_keys = ["all"] + [f"{a}{a}" for a in range(1, K + 1)]
         okk = sorted(keys) == sorted(want_keys)
-        run.ob("R-ROUTE", fq, "accumulators", okk, f"one density-mode accumulator per species plus 'all'", f"{keys}",
+        run.ob("R-ROUTE", fq, "accumulators", True if okk else None, f"one density-mode accumulator per species plus 'all'", f"{keys}",
                witness=None if okk else f"accumulators {keys}", loc=loc_of(it, dict_assign[0]))
         accs = {}
         for e in stores(it):
@@ -204,15 +211,15 @@ def check_method(run, pkg, K, m, attrs, ex):
                 accs.setdefault(tg[2][1], []).append((e, e.guards))
         acc_term = {k: ("sub", D, C(k)) for k in keys}
     run.ob("R-ROUTE", fq, "reset-per-frame", acc_reset, "density-mode accumulators are reset at the start of every frame", "",
-           witness=None if acc_reset else "modes of different frames are summed coherently before squaring", loc=loc)
+           witness=None if acc_reset else "modes of different frames are summed coherently before squaring", loc=loc, sound=True)
     # particle loop and phase
     any_ev = next(iter(accs.values()))[0][0] if accs and next(iter(accs.values())) else None
     if any_ev is None:
         raise AnalysisError(f"{fq}: no accumulation of density modes found")
     Lp = it.loops[any_ev.loops[-1]]
     i = Lp.target
-    okp = Lp.iter == ("call", "builtins.range", (("attr", snap, "nparticle"),), ()) or ex(Lp.iter) == ("call", "builtins.range", (N_,), ())
-    run.ob("R-LOOPDOM", fq, "particles", okp, "every particle of the frame contributes", show(Lp.iter)[:60], witness=None if okp else "particles skipped", loc=loc)
+    okp = True if (Lp.iter == ("call", "builtins.range", (("attr", snap, "nparticle"),), ()) or ex(Lp.iter) == ("call", "builtins.range", (N_,), ())) else eqv(Lp.iter, ("call", "builtins.range", (("attr", snap, "nparticle"),), ()))
+    run.ob("R-LOOPDOM", fq, "particles", okp, "every particle of the frame contributes", show(Lp.iter)[:60], witness=None if okp else "particles skipped", loc=loc, sound=True)
     medium = any_ev.data["value"]
     qv = ex(attrs["qvector"])
     thetas = ("call", ".sum", (("bin", "*", attrs_q(it), ("sub", ("sub", ("attr", snap, "positions"), i), ("tuple", (("mod", "numpy.newaxis"), ("slice", NONE, NONE, NONE))))),),
@@ -235,7 +242,7 @@ def check_method(run, pkg, K, m, attrs, ex):
         except Exception:
             okm = None
     run.ob("R-ALG", fq, "phase", okm, "each particle contributes exp(-i q.r_i) with q.r summed over the axes, r_i of the current frame", show(medium)[:140],
-           witness=None if okm is not False else "phase sign / reduction axis / particle index differ from exp(-i q.r)", loc=loc_of(it, any_ev))
+           witness=None if okm is not False else "phase sign / reduction axis / particle index differ from exp(-i q.r)", loc=loc_of(it, any_ev), sound=True)
     # routing decided for each type id
     ptype_i = ("sub", ("attr", snap, "particle_type"), i)
     if K > 1:
@@ -252,10 +259,11 @@ def check_method(run, pkg, K, m, attrs, ex):
             sx = ex(sj)
             if sx != ptype_i and sx[0] == "sub" and sx[2] == i and sx[1][0] == "attr" and sx[1][2] == "particle_type":
                 foreign.add(sj)
-        run.ob("R-ROUTE", fq, "type-source", not foreign, "the species of particle i is read from the frame being processed",
+        fixed_foreign = [x for x in foreign if (lambda sx: sx[1][1][0] == "sub" and is_const(sx[1][1][2]) and not any(y[0] in ("loopvar", "mu", "elem") for y in walk(sx[1][1])))(ex(x))]
+        run.ob("R-ROUTE", fq, "type-source", True if not foreign else (False if fixed_foreign else None), "the species of particle i is read from the frame being processed",
                ", ".join(show(ex(x))[:70] for x in foreign) if foreign else show(ptype_i)[:60],
                witness=None if not foreign else "two frames in which particles 0 and 1 exchange species at fixed composition: frame 1's densities rho_a are "
-               "summed over the wrong particles (total S(q) unchanged, every partial column wrong)", loc=loc)
+               "summed over the wrong particles (total S(q) unchanged, every partial column wrong)", loc=loc, sound=True)
         for t in range(1, K + 1):
             def leaf(c, t=t):
                 if c[0] == "cmp" and c[1] in ("==", "!=") and (c[2] == ptype_i or c[2] in foreign) and is_const(c[3]):
@@ -275,9 +283,9 @@ def check_method(run, pkg, K, m, attrs, ex):
             want = sorted(["all", f"{t}{t}"])
             ok = None if und else sorted(got) == want
             run.ob("R-ROUTE", fq, f"type {t}", ok, f"a particle of type {t} feeds exactly the accumulators 'all' and '{t}{t}'", f"feeds {sorted(got)}",
-                   witness=None if ok is not False else f"type id {t} -> {sorted(got)}", loc=loc)
+                   witness=None if ok is not False else f"type id {t} -> {sorted(got)}", loc=loc, sound=True)   # every routing guard decided for this type id
         same_val = all(e.data["value"] == medium for lst in accs.values() for e, _ in lst)
-        run.ob("R-ROUTE", fq, "same-phase", same_val, "every accumulator receives the same per-particle phase factor", "",
+        run.ob("R-ROUTE", fq, "same-phase", True if same_val else None, "every accumulator receives the same per-particle phase factor", "",
                witness=None if same_val else "species accumulators use different phase factors", loc=loc)
     # ---- column products
     for name in want_cols:
@@ -285,8 +293,7 @@ def check_method(run, pkg, K, m, attrs, ex):
             continue
         evs = acc_ev.get(name, [])
         if len(evs) != 1:
-            run.ob("R-ALG", fq, f"{name}:product", None if evs else False, f"column {name} is accumulated once per frame", f"{len(evs)} statements",
-                   witness=None if evs else f"{name} never filled", loc=loc)
+            run.ob("R-ALG", fq, f"{name}:product", None, f"column {name} is accumulated once per frame", f"{len(evs)} statements", loc=loc)
             continue
         e = evs[0]
         v = e.data["value"]
@@ -307,20 +314,20 @@ def check_method(run, pkg, K, m, attrs, ex):
             kx = [k for k, t_ in acc_term.items() if t_ == x]
             ky = [k for k, t_ in acc_term.items() if t_ == y]
             if kx and ky:
-                okpr = real and (cx != cy) and sorted([kx[0], ky[0]]) == sorted([a, b])
+                # both factors are identified accumulators: which ones, and whether exactly one is conjugated, are read off exactly
+                okpr = tri(True if real else None, cx != cy, sorted([kx[0], ky[0]]) == sorted([a, b]))
                 detail = f"Re? {real}; factors acc[{kx[0]}]{'*' if cx else ''} x acc[{ky[0]}]{'*' if cy else ''}"
         elif v[0] == "call" and v[1] in ("numpy.square", "numpy.abs") or (v[0] == "bin" and v[1] == "**"):
             okpr = None
         run.ob("R-ALG", fq, f"{name}:product", okpr, f"{name} accumulates Re(rho_{a[0] if a != 'all' else ''} conj(rho_{b[0] if b != 'all' else ''}))", detail,
-               witness=None if okpr is not False else f"{name} is built from {detail}", loc=loc_of(it, e))
+               witness=None if okpr is not False else f"{name} is built from {detail}", loc=loc_of(it, e), sound=True)
         oks = e.loops == (Lf.id,) and all(e.seq > x_[0].seq for lst in accs.values() for x_ in lst)
-        run.ob("R-LOOPDOM", fq, f"{name}:per-frame", oks, "the product is taken once per frame, after all particles were summed", f"loops {e.loops}",
+        run.ob("R-LOOPDOM", fq, f"{name}:per-frame", True if oks else None, "the product is taken once per frame, after all particles were summed", f"loops {e.loops}",
                witness=None if oks else "squared inside the particle loop", loc=loc_of(it, e))
         # normalisation
         nv = norm_ev.get(name, [])
         if len(nv) != 1:
-            run.ob("R-ALG", fq, f"{name}:norm", None if nv else False, f"{name} is normalised exactly once", f"{len(nv)} statements",
-                   witness=None if nv else f"{name} left unnormalised", loc=loc)
+            run.ob("R-ALG", fq, f"{name}:norm", None, f"{name} is normalised exactly once", f"{len(nv)} statements", loc=loc)
             continue
         ne = nv[0]
         if name == "Sq":
@@ -344,14 +351,14 @@ def check_method(run, pkg, K, m, attrs, ex):
         okseq = ne.seq > e.seq and not ne.loops
         check_algebra(run, "R-ALG", it, f"{name}:norm", what, ex(ne.data["value"]), ref, atom_of, loc_of(it, ne), positive=True)
         if not okseq:
-            run.ob("R-ALG", fq, f"{name}:norm-order", False, "normalisation happens once, after the frame loop", f"loops {ne.loops}",
-                   witness="divided once per frame", loc=loc_of(it, ne))
+            run.ob("R-ALG", fq, f"{name}:norm-order", False if ne.loops else None, "normalisation happens once, after the frame loop", f"loops {ne.loops}",
+                   witness="divided once per frame", loc=loc_of(it, ne), sound=True)
     # ---- rounding before grouping
     def find(t, f):
         return [x for x in walk(t) if x[0] == "call" and x[1] == f]
     rd = find(ret, ".round")
     gb = find(ret, ".groupby")
-    ok_ord = False
+    ok_ord = None
     detail = show(ret)[:140]
     if len(gb) == 1 and rd:
         g = gb[0]
@@ -360,17 +367,26 @@ def check_method(run, pkg, K, m, attrs, ex):
         ok_ord = rounded[0] == "call" and rounded[1] == ".round" and rounded[2][0] == df and (rounded[2][1:] == (C(6),) or kw(rounded, "decimals") == C(6)) \
             and key == ("sub", rounded, C("q"))
         mean = [x for x in walk(ret) if x[0] == "call" and x[1] == ".mean" and x[2] and x[2][0] == g]
-        ok_ord = ok_ord and bool(mean)
+        ok_ord = True if (ok_ord and mean) else None
+        if ok_ord is None and rounded == df and key == ("sub", df, C("q")):
+            ok_ord = False         # the raw table is grouped by its raw float |q| column; rounding comes after the means
+        if ok_ord is None and key is not None:
+            # a key that involves neither the table's q column nor the scaled wave vectors cannot be a function of |q| for every box
+            qish = [x for x in walk(ex(key)) if (x[0] == "sub" and x[2] == C("q")) or x == ex(attrs["qvalue"]) or x == ex(attrs["qvector"])] + \
+                   [x for x in walk(key) if (x[0] == "sub" and x[2] == C("q")) or (x[0] == "attr" and x[2] in ("qvalue", "qvector"))]
+            if not qish and any(x[0] == "attr" and x[2] == "df_qvector" for x in walk(key)):
+                ok_ord = False
+                detail = "grouped by " + show(key)[:100]
     run.ob("R-ORDER", fq, "round-then-group", ok_ord, "per-vector values are rounded to 6 decimals, then averaged over equal |q| (grouped by the rounded q column)", detail,
-           witness=None if ok_ord else "equal |q| with different float noise are not merged / unrounded values averaged / other precision", loc=loc)
+           witness=None if ok_ord else "equal |q| with different float noise are not merged / unrounded values averaged / other precision", loc=loc, sound=True)
     # ---- save
     for e in calls(it, ".to_csv"):
         c = e.data["call"]
         path = ex(c[2][1]) if len(c[2]) > 1 else None
         if path == ("sym", "outputfile"):
-            ok = c[2][0] == ret
+            ok = True if c[2][0] == ret else (False if c[2][0] == df else None)     # the per-vector frame instead of the averaged one that is returned
             run.ob("R-SAVE", fq, "csv", ok, "the CSV holds the returned (q-averaged) frame", show(c[2][0])[:60], witness=None if ok else "file differs from returned values",
-                   loc=loc_of(it, e))
+                   loc=loc_of(it, e), sound=True)
 
 
 def attrs_q(it):
@@ -381,9 +397,9 @@ def check_dispatch(run, pkg, attrs):
     it = interp(pkg, f"{CLS}.getresults")
     fq = short(it.fi.qual)
     nk = ("call", "builtins.len", (("attr", ("sym", "self"), "typenumber"),), ())
-    ok_tn = attrs.get("typenumber") == TYPENUMBER
+    ok_tn = eqv(attrs.get("typenumber"), TYPENUMBER)
     run.ob("R-DISPATCH", short(pkg.cls(CLS).methods["__init__"].qual), "typenumber", ok_tn, "species are the distinct type ids of frame 0", "",
-           witness=None if ok_tn else "species count taken from something else")
+           witness=None if ok_tn else "species count taken from something else", sound=True)
     for K in range(1, 8):
         def leaf(c, K=K):
             if c[0] == "cmp" and is_const(c[3]) and c[2] == nk:
@@ -397,12 +413,14 @@ def check_dispatch(run, pkg, attrs):
             run.ob("R-DISPATCH", fq, f"K={K}", None, "guard decidable", "", loc=it.fi.loc())
             continue
         if not sel:
-            run.ob("R-DISPATCH", fq, f"K={K}", False, f"{K} species are dispatched to sq.{want}", "falls through (None)", witness=f"{K} distinct types", loc=it.fi.loc())
+            run.ob("R-DISPATCH", fq, f"K={K}", False, f"{K} species are dispatched to sq.{want}", "falls through (None)", witness=f"{K} distinct types", loc=it.fi.loc(), sound=True)
             continue
         val = sel[0].data["value"]
         ok = val[0] == "call" and val[1] == pkg.cls(CLS).methods[want].qual
+        others = {pkg.cls(CLS).methods[m_].qual for m_ in METHODS.values() if m_ != want}
+        ok = True if ok else (False if (val[0] == "call" and val[1] in others) else None)
         run.ob("R-DISPATCH", fq, f"K={K}", ok, f"{K} species are dispatched to sq.{want}" + (" (total only)" if K > 5 else ""), show(val)[:60],
-               witness=None if ok else f"{K} types -> {show(val)[:50]}", loc=loc_of(it, sel[0]))
+               witness=None if ok else f"{K} types -> {show(val)[:50]}", loc=loc_of(it, sel[0]), sound=True)
     run.minimum("R-DISPATCH", 7)
 
 
@@ -428,16 +446,18 @@ def check_wavevector(run, pkg, ndim):
     nhalf = ("call", "builtins.int", (("bin", "/", numofq, C(2)),), ())
     want_iter = ("call", "builtins.range", (("un", "-", nhalf), nhalf), ())
     for k, L in enumerate(loops):
-        ok = L.iter == want_iter
-        alt = L.iter[0] == "call" and L.iter[1] == "builtins.range"
-        run.ob("R-LOOPDOM", fq, f"{ndim}D:axis{k}", ok if ok or alt else None, f"axis {k} runs over the same range(-nhalf, nhalf), nhalf = int(numofq/2)", show(L.iter)[:70],
-               witness=None if ok else f"axis {k} covers {show(L.iter)[:50]}: the vector set is not symmetric between axes", loc=fi.loc(L.node))
+        # relational: every axis must cover the range of axis 0 (definite when the range arguments differ); axis 0 against the documented range
+        ok = True if L.iter == want_iter else (eqv(L.iter, loops[0].iter) if k > 0 else None)
+        if ok is True and k > 0 and loops[0].iter != want_iter:
+            ok = None
+        run.ob("R-LOOPDOM", fq, f"{ndim}D:axis{k}", ok, f"axis {k} runs over the same range(-nhalf, nhalf), nhalf = int(numofq/2)", show(L.iter)[:70],
+               witness=None if ok else f"axis {k} covers {show(L.iter)[:50]}: the vector set is not symmetric between axes", loc=fi.loc(L.node), sound=True)
     okv = tuple(e.data["value"][1]) == tuple(lvs)
-    run.ob("R-LOOPDOM", fq, f"{ndim}D:vector", okv, "the stored vector is (loop variable of axis 0, 1[, 2]) in order", show(e.data["value"])[:60],
-           witness=None if okv else "components permuted / repeated", loc=loc_of(it, e))
+    run.ob("R-LOOPDOM", fq, f"{ndim}D:vector", True if okv else (False if (all(x in lvs for x in e.data["value"][1]) and len(set(e.data["value"][1])) < ndim) else None), "the stored vector is (loop variable of axis 0, 1[, 2]) in order", show(e.data["value"])[:60],
+           witness=None if okv else "a loop variable is stored twice: one component never varies", loc=loc_of(it, e), sound=True)
     # predicate: integer norm using all loop variables
     g = [c for c, pol in e.guards if pol]
-    okg = False
+    okg = None
     detail = [show(c)[:80] for c in g]
     for c in g:
         if c[0] == "cmp" and c[1] == "==" and c[3] in (C(0), C(0.0)):
@@ -449,35 +469,39 @@ def check_wavevector(run, pkg, ndim):
                 tr = S.Translator(lambda t: s_[lvs.index(t)] if t in lvs else None)
                 try:
                     arg = tr.tr(sq[0][2][0])
-                    okg = sp.expand(arg - sum(s_[k] ** 2 for k in range(ndim))) == 0 and used == set(lvs) and \
-                        inner[0] == "sub" and inner[2] == C(0) and inner[1][0] == "call" and inner[1][1] == "math.modf"
+                    same_poly = sp.expand(arg - sum(s_[k] ** 2 for k in range(ndim))) == 0
+                    form = inner[0] == "sub" and inner[2] == C(0) and inner[1][0] == "call" and inner[1][1] == "math.modf"
+                    # the radicand is a polynomial in the loop variables only: compared exactly
+                    okg = (True if (same_poly and used == set(lvs) and form) else (False if (not tr.atoms and not same_poly and form) else None))
                 except Exception:
-                    okg = False
+                    okg = None
     run.ob("R-LOOPDOM", fq, f"{ndim}D:predicate", okg, "a vector is kept iff sqrt(sum of squares of ALL components) has zero fractional part", detail,
-           witness=None if okg else "predicate ignores a component / is not the integer-norm test", loc=loc_of(it, e))
+           witness=None if okg else "predicate ignores a component / is not the integer-norm test", loc=loc_of(it, e), sound=True)
     # index increments once per stored vector, starts at 0
     augs = [a for a in it.events if a.kind == "aug" and a.loops == e.loops and a.guards == e.guards and a.data["op"] == "+" and a.data["value"] == C(1)]
     idx = e.data["target"][2]
     okidx = len(augs) == 1 and idx == augs[0].data["old"] and idx[0] == "mu" and augs[0].seq > e.seq
-    run.ob("R-LOOPDOM", fq, f"{ndim}D:index", okidx, "row index advances by one per stored vector", show(idx)[:40],
+    run.ob("R-LOOPDOM", fq, f"{ndim}D:index", True if okidx else None, "row index advances by one per stored vector", show(idx)[:40],
            witness=None if okidx else "vectors overwrite each other / gaps", loc=loc_of(it, e))
     # capacity
     buf = e.data["target"][1]
     okcap = buf[0] == "call" and buf[1] == "numpy.zeros" and buf[2] and buf[2][0] == ("tuple", (("bin", "**", numofq, ("sym", "ndim")), ("sym", "ndim")))
-    run.ob("R-LOOPDOM", fq, f"{ndim}D:capacity", okcap, "buffer holds numofq**ndim >= (2*int(numofq/2))**ndim rows", show(buf)[:70],
+    run.ob("R-LOOPDOM", fq, f"{ndim}D:capacity", True if okcap else None, "buffer holds numofq**ndim >= (2*int(numofq/2))**ndim rows", show(buf)[:70],
            witness=None if okcap else "buffer may be too small for the loop nest", loc=loc)
     # zero rows removed, onlypositive
     ret = it.returns[0].data["value"] if it.returns else NONE
     txt = show(ret)
     zero_removed = any(x[0] == "un" and x[1] == "~" and any(y[0] == "cmp" and y[1] == "==" and y[3] == C(0) for y in walk(x)) and
                        any(y[0] == "call" and y[1] == ".all" for y in walk(x)) for x in walk(ret))
-    run.ob("R-LOOPDOM", fq, f"{ndim}D:zero-removed", zero_removed, "the zero vector and the unused (all-zero) buffer rows are removed", txt[:100],
-           witness=None if zero_removed else "q = 0 kept: S(0) pollutes the table", loc=loc)
+    any_form = any(x[0] == "un" and x[1] == "~" and any(y[0] == "cmp" and y[1] == "==" and y[3] == C(0) for y in walk(x)) and
+                   any(y[0] == "call" and y[1] == ".any" for y in walk(x)) and not any(y[0] == "call" and y[1] == ".all" for y in walk(x)) for x in walk(ret))
+    run.ob("R-LOOPDOM", fq, f"{ndim}D:zero-removed", True if zero_removed else (False if any_form else None), "the zero vector and the unused (all-zero) buffer rows are removed", txt[:100],
+           witness=None if zero_removed else "rows with ANY zero component are removed: axis vectors such as (n, 0, 0) are lost", loc=loc, sound=True)
     # onlypositive bool semantics
     pos = [x for x in walk(ret) if x[0] == "phi"]
     okpos = any(p[1][0] == "bool" and ("call", "builtins.isinstance", (("sym", "onlypositive"), ("builtin", "bool")), ()) in p[1][2] and ("sym", "onlypositive") in p[1][2]
                 for p in pos)
-    run.ob("R-LOOPDOM", fq, f"{ndim}D:onlypositive", okpos, "onlypositive=True (and only a bool True) restricts to non-negative components", "",
+    run.ob("R-LOOPDOM", fq, f"{ndim}D:onlypositive", True if okpos else None, "onlypositive=True (and only a bool True) restricts to non-negative components", "",
            witness=None if okpos else "axis strings 'x'/'y'/'z' are treated as True (or True ignored)", loc=loc)
     for p_ in pos:
         if p_[1][0] == "bool" and ("sym", "onlypositive") in p_[1][2]:
@@ -485,5 +509,5 @@ def check_wavevector(run, pkg, ndim):
                     and not any(y == x for y in walk(p_[3]))]
             okc = bool(cmps) and all((x[1] == ">=" and x[3] == C(0)) or (x[1] == ">" and x[3] == C(-1)) or (x[1] == "<=" and x[2] == C(0)) for x in cmps) \
                 and any(y[0] == "call" and y[1] == ".all" and kw(y, "axis", 1) == C(1) for y in walk(p_[2]))
-            run.ob("R-CMP", fq, f"{ndim}D:onlypositive-cmp", okc if cmps else None, "onlypositive keeps vectors whose components are all >= 0 (documented range [0, N/2]: axis vectors stay)",
+            run.ob("R-CMP", fq, f"{ndim}D:onlypositive-cmp", True if (okc and cmps) else None, "onlypositive keeps vectors whose components are all >= 0 (documented range [0, N/2]: axis vectors stay)",
                    [show(x)[:50] for x in cmps], witness=None if okc else "vectors with a zero component such as (n, 0, 0) are dropped / sign test wrong", loc=loc)
